@@ -232,6 +232,43 @@ func analyse(path string, F facts) {
 
 func analyseFunc(pk, fn string, fd *ast.FuncDecl, info *types.Info, F facts) {
 	where := pk + "." + fn
+	// the calls a function of the modelled code makes into the module, in source order: the skeleton the transliterated
+	// model functions follow (an added, dropped or moved pass shows here even when it changes the result on one input in 40000)
+	if pk != "internal/geom" && pk != "internal/collectors" && pk != "internal/monitor" && pk != "graph" &&
+		!strings.HasSuffix(fn, ".String") && !strings.HasSuffix(fn, ".SVG") {
+		var calls []string
+		ast.Inspect(fd.Body, func(n ast.Node) bool {
+			c, ok := n.(*ast.CallExpr)
+			if !ok {
+				return true
+			}
+			var id *ast.Ident
+			switch f := c.Fun.(type) {
+			case *ast.Ident:
+				id = f
+			case *ast.SelectorExpr:
+				id = f.Sel
+			case *ast.IndexExpr: // generic instantiation
+				switch g := f.X.(type) {
+				case *ast.Ident:
+					id = g
+				case *ast.SelectorExpr:
+					id = g.Sel
+				}
+			}
+			if id != nil {
+				if o, ok := info.Uses[id].(*types.Func); ok && o.Pkg() != nil && strings.HasPrefix(o.Pkg().Path(), modPath) {
+					if o.Pkg().Path() != modPath+"/internal/monitor" {
+						calls = append(calls, o.Name())
+					}
+				}
+			}
+			return true
+		})
+		if len(calls) > 0 {
+			F.add("callSeqs", where+": "+strings.Join(calls, " "))
+		}
+	}
 	selfObj := info.Defs[fd.Name]
 	lhsWrite := func(e ast.Expr, how string) {
 		if id := baseIdent(e); id != nil {
@@ -395,7 +432,7 @@ func leanStr(s string) string {
 func emit(F facts) {
 	keys := []string{"globals", "globalWrites", "inits", "imports", "mapRanges", "mapCalls", "nondet", "sorts", "panics",
 		"unboundedLoops", "recursive", "idReads", "stringKeyedMaps", "topoWrites", "sizeReadsPhases123", "floatLits",
-		"numConversions", "monitorCalls", "layoutMonitorStmts", "geomBodies"}
+		"numConversions", "monitorCalls", "layoutMonitorStmts", "geomBodies", "callSeqs"}
 	var b strings.Builder
 	b.WriteString("/-! GENERATED by /verif/extract from /repo's working tree on every check run. Do not edit. -/\n\nnamespace Autog.Facts\n\n")
 	for _, k := range keys {
